@@ -357,8 +357,42 @@ class Idx:
 
     __radd__ = __add__
 
+    def __sub__(self, o):
+        if isinstance(o, int):
+            return Idx(self.name, self.a, self.b - o)
+        raise AnalysisError("non-affine index arithmetic")
+
     def __repr__(self):
         return "%d*%s+%d" % (self.a, self.name, self.b)
+
+
+class IdxClamp:
+    """index expression clamped with min/max (a band around the loop cell): absorbing"""
+    def __init__(self, text="clamp"):
+        self.text = text
+
+    def _same(self, o):
+        return IdxClamp(self.text)
+
+    __add__ = __radd__ = __sub__ = __rsub__ = __mul__ = __rmul__ = _same
+
+
+class PartArr:
+    """part of an array selected by a cell-dependent slice"""
+    def __init__(self, arr):
+        self.arr = arr
+
+    def __sub__(self, o):
+        if isinstance(o, PartArr):
+            return PartArr(self.arr - o.arr)
+        raise AnalysisError("partial array combined with a full array")
+
+    def __truediv__(self, o):
+        if isinstance(o, EpsVal):
+            q = FDQuot(self.arr, o)
+            q.partial = True
+            return q
+        raise AnalysisError("unsupported operation on a partial array")
 
 
 class SymRange:
@@ -413,6 +447,8 @@ class Elem:
 
 class FDQuot:
     """(array difference) / eps"""
+    partial = False
+
     def __init__(self, arr, eps):
         self.arr, self.eps = arr, eps
 
@@ -813,6 +849,8 @@ class AffInterp:
             return o[idx]
         if isinstance(o, AArr) and isinstance(idx, Idx):
             return Elem(o, idx)
+        if isinstance(o, AArr) and isinstance(idx, slice) and any(isinstance(x, (Idx, IdxClamp)) for x in (idx.start, idx.stop)):
+            return PartArr(o)
         raise AnalysisError("%s:%d unsupported subscript on %s" % (func.qualname, node.lineno, type(o).__name__))
 
     def e_Subscript(self, node, env, func):
@@ -977,6 +1015,8 @@ class AffInterp:
                 return list(enumerate(self.iterate(args[0], node, func)))
             if base == "zip":
                 return list(zip(*[self.iterate(a, node, func) for a in args]))
+            if base in ("min", "max") and any(isinstance(a, (Idx, IdxClamp)) for a in args):
+                return IdxClamp("%s(%s)" % (base, ", ".join(repr(a) for a in args)))
             if base == "min":
                 return self.dtred("min", args[0])
             if base == "max":
